@@ -92,7 +92,7 @@ def to_proto(src, macros=None, incremental=False, shared=None) -> ProtoSubroutin
     return ProtoSubroutine(commands=cmds, app_id=0, netqasm_version=(0, 0))
 
 
-def to_text(src, macros: Dict[str, str], bracket_array: bool, lstyle: int = 0, bracket_args: bool = False, pair_macro: bool = False) -> str:
+def to_text(src, macros: Dict[str, str], bracket_array: bool, lstyle: int = 0, bracket_args: bool = False, pair_macro: bool = False, zero_pad: bool = False) -> str:
     """Render as NetQASM text.  `macros` maps a rendered token (e.g. 'R0' or '7')
     to a macro key; such tokens are written as $key."""
     lines = ["# NETQASM 0.0", "# APPID 0"]
@@ -100,6 +100,8 @@ def to_text(src, macros: Dict[str, str], bracket_array: bool, lstyle: int = 0, b
         lines.append(f"# DEFINE {key} {tok}")
     def tk(o):
         t = regname(o["v"]) if o["k"] == "reg" else lname(o["v"], lstyle) if o["k"] == "lab" else str(o["v"])
+        if zero_pad and o["k"] == "lit" and isinstance(o["v"], int) and o["v"] >= 0:
+            t = f"{o['v']:03d}"            # column-aligned sources: decimal constants written with leading zeros
         return f"${macros[t]}" if t in macros else t
     for it in src:
         if it["t"] == "label":
@@ -262,7 +264,17 @@ def assemble_all(src, rng, mode) -> List[Tuple[str, Any, str]]:
             out.append(("text-register-like-labels", [dict(zip(("mn", "ops"), isa.flatten(i))) for i in sub.instructions], ""))
         except Exception as ex:
             out.append(("text-register-like-labels", None, f"{type(ex).__name__}: {ex}"[:160]))
-    for path_, kw_ in (("text-bracket-args", dict(bracket_args=True)), ("text-two-word-macro", dict(pair_macro=True))):
+    try:
+        # the IR object is created empty (no command list given) and filled afterwards, as a program that builds IR does
+        p0 = to_proto(src)
+        proto2 = ProtoSubroutine(app_id=0, netqasm_version=(0, 0))
+        proto2.commands.extend(p0.commands[: len(p0.commands) // 2])
+        proto2.commands += p0.commands[len(p0.commands) // 2:]
+        sub = assemble_subroutine(proto2)
+        out.append(("ir-created-empty-then-filled", [dict(zip(("mn", "ops"), isa.flatten(i))) for i in sub.instructions], ""))
+    except Exception as ex:
+        out.append(("ir-created-empty-then-filled", None, f"{type(ex).__name__}: {ex}"[:160]))
+    for path_, kw_ in (("text-bracket-args", dict(bracket_args=True)), ("text-two-word-macro", dict(pair_macro=True)), ("text-zero-padded-constants", dict(zero_pad=True))):
         try:
             sub = parse_text_subroutine(to_text(src, {}, False, **kw_))
             out.append((path_, [dict(zip(("mn", "ops"), isa.flatten(i))) for i in sub.instructions], ""))
